@@ -1,5 +1,4 @@
-# reg and TB_COMMON are injected by lib/props.py
-exec(open(__file__.replace("C02.py", "C01.py")).read().split("reg(id=")[0])  # CODEC_TB
+# reg, TB_COMMON and CODEC_TB are injected by lib/props.py
 reg(id="C02",
     gen=["msgs", "accessors"],
     harness_cmd="c01",
